@@ -858,7 +858,10 @@ fn digest(a: &[String]) -> i32 {
     let mut arena = arena::Arena::new();
     let out = std::io::stdout();
     let mut so = out.lock();
+    arena::install_crash_handler();
     for i in 0..n {
+        arena::CURRENT_RUN.store(i, std::sync::atomic::Ordering::Relaxed);
+        arena::watchdog(20);
         let rs = rng::run_seed(seed, tag, i);
         let mut t = plan.generate(rs, i, false);
         // forced backends only exist at the runtime-detection point: neutralise the knob
@@ -878,5 +881,6 @@ fn digest(a: &[String]) -> i32 {
         }
         let _ = writeln!(so, "{} {:016x}", i, h);
     }
+    arena::watchdog(0);
     0
 }
